@@ -520,3 +520,27 @@ def uninitialised_uses(f):
                 if dp is not None and f.reach_avoiding(tuple(dp), tuple(up), [tuple(a) for a in assigns if a is not None]):
                     out.append((u, d["name"], st))
     return out
+
+
+# ---------------------------------------------------- moving from the caller's object
+def moves_from_lvalue_ref(f):
+    """std::move applied to a parameter (or an inlined helper's parameter) whose type is a NON-const lvalue reference:
+    the callee empties an object its caller still owns.  In an instantiated forwarding function this is what
+    `std::move(arg)` on a forwarding reference `Arg&& arg` becomes when the caller passed an lvalue
+    (std::forward would have copied).  list of (move stmt, parameter name)"""
+    out = []
+    for st in f.stmts.values():
+        if st["k"] != "CallExpr" or callee_fq(st) != "std::move" or not st["args"]:
+            continue
+        a = f.s(st["args"][0])
+        while a is not None and a["k"] in WRAPPERS:
+            ch = f.children(a)
+            a = ch[0] if ch else None
+        if a is None or a["k"] != "DeclRefExpr":
+            continue
+        d = a["d"]
+        if d.get("k") == "param" or d.get("inl"):
+            t = d.get("type", "").strip()
+            if t.endswith("&") and not t.endswith("&&") and not t.startswith("const "):
+                out.append((st, d.get("name")))
+    return out
